@@ -7,10 +7,17 @@ recognising one spelling of them:
                        Process(p)->[all, process[p] if present]; folded left-to-right with the running env.
                        LayerEnv::apply is sliced with the scope fixed (definitions / pushes of other arms vanish, private
                        helpers inlined); the result must be a fold / loop / nest of delta applications from the input env
-                       over an ordered collection (array, vec + push/extend, once/chain, Option, helper result)
+                       over an ordered collection (array, vec + push/extend, once/chain, Option, helper result).
+                       In-place applications (`d.apply_in_place(&mut acc)`, straight-line, under `if let Some`, in a loop,
+                       or inside a private helper that is handed `&mut acc`) are put into the same functional form
+                       (PSlicer.env_steps) — refused when anything reads the accumulator before a later update; apply
+                       calling itself for another literal scope (`self.apply(Scope::All, env)`) contributes that scope's
+                       list.  A list that cannot be read off is UNPROVEN, a different list VIOLATED
   R2 behaviour order   cmp, with its private rank helper made transparent, is rank(self).cmp(rank(other)) for one
                        constant table (or the discriminants), and the ranks sort the variants in the lexicographic
-                       order of their file suffixes (the lifecycle applies files by name)
+                       order of their file suffixes (the lifecycle applies files by name); the suffixes are read off
+                       the file name of the writer's WRITE effect — also when the name is an element of a list of
+                       planned files computed first (C04_helpers.planned_suffix_table)
   R3 frame             apply takes &self and &Env and returns an owned Env; no interior mutability in
                        Env / LayerEnv / LayerEnvDelta
   R4 ordered entries   entries live in a BTreeMap keyed by (behaviour, name); insert is the only writer
@@ -36,7 +43,10 @@ recognising one spelling of them:
                        is entries[(behaviour, name)] = value; chainable_insert = insert, then self; apply_to_empty =
                        apply to an environment without variables
 Spelling independence (C04_helpers): the per-delta application is a family of ownership variants (apply(&env) =
-apply_owned(env.clone()), delta_family); the entry loop may range over an order-preserving filter / map view of the
+apply_owned(env.clone()) = { let mut r = env.clone(); apply_in_place(&mut r); r }, delta_family — the bridges are
+verified on which environment object is handed on and handed back); the environment may be threaded through by-value
+helpers in the entry loop / fold (`env = self.apply_entry(env, ..)`: ArmCase.is_env on values, EnvObjects on
+objects); the entry loop may range over an order-preserving filter / map view of the
 entries nested in a loop over a literal behaviour table that is sorted like the map and never left early (EntryView),
 or over a view whose stages (filter / map / filter_map, lazy or collected first) are evaluated per case — whether an
 entry of the case is visited at all and *what the loop element is* for it (`filter_map(|((b, n), v)| match b { Override =>
@@ -88,6 +98,11 @@ def run(ctx, rep):
     rep.extra['scope_table'] = table
     for variant, want in SPEC_SCOPE.items():
         got = table.get(variant)
+        if got is None:
+            # not a VIOLATED: the list of deltas could not be read off this spelling (the reason says what was met)
+            rep.unproven('R1', 'apply/' + variant, where, 'Scope::%s: the ordered list of deltas applied was not determined (%s); the CNB rules require %s' %
+                         (variant, why.get(variant) or 'not evaluated', want))
+            continue
         rep.check(got == want, 'R1', 'apply/' + variant, where, '%s -> %s' % (variant, want),
                   'Scope::%s applies deltas %s, the CNB rules require %s%s' % (variant, got, want, (' (%s)' % why.get(variant)) if why.get(variant) else ''))
     for variant in table:
@@ -97,17 +112,24 @@ def run(ctx, rep):
     rev = any(x[0] == 'call' and x[1].split('::')[-1].lower() in H.ORDER_CHANGING for x in walk(sl.inline_deep(rv, keep=tuple(sorted(H.delta_family(prog)[1]) or (L.DAPPLY,))))) or \
         bool(H.order_changing_calls(prog, f))
     folded = all(table.get(v) is not None for v in SPEC_SCOPE)
-    rep.check(folded and not rev, 'R1', 'apply/fold', where,
-              'deltas applied one after the other in list order, starting from the input env (%s)' % '/'.join(sorted({str(x) for x in shapes.values()})),
-              'deltas are not folded left-to-right from the input env: %s' % ('; '.join(sorted({str(w) for w in why.values() if w})) or vstr(rv)[:160]))
+    if not folded and not rev:
+        rep.unproven('R1', 'apply/fold', where, 'not recognised as deltas folded left-to-right from the input env: %s' %
+                     ('; '.join(sorted({str(w) for w in why.values() if w})) or vstr(rv)[:160]))
+    else:
+        rep.check(folded and not rev, 'R1', 'apply/fold', where,
+                  'deltas applied one after the other in list order, starting from the input env (%s)' % '/'.join(sorted({str(x) for x in shapes.values() if x}) or ['nested']),
+                  'deltas are not folded left-to-right from the input env: %s' % ('; '.join(sorted({str(w) for w in why.values() if w})) or 'the order of the collection is changed'))
     # ---- R2 ----------------------------------------------------------------------------------------
     # cmp, with the private rank helper (a nested fn, a method on the enum, ..) made transparent, must be
     # rank(self).cmp(&rank(other)) for one constant table rank: variant -> integer
-    wd, ws, winfo = L.writer_suffix_table(prog, sl)
+    wd, ws, winfo = H.suffix_table(prog, sl)
     cmpf = prog.fn('<libcnb::layer_env::ModificationBehavior as std::cmp::Ord>::cmp')
     ifn, ranks, good, shown = rank_table(prog, sl, cmpf)
     if len(ranks) != 5:
         rep.unproven('R2', 'rank-table', 'libcnb/src/layer_env.rs', 'rank table of Ord for ModificationBehavior not recognised: %s' % ranks)
+    elif len(ws) != 5:
+        rep.unproven('R2', 'rank-table', 'libcnb/src/layer_env.rs', 'the file suffixes the per-directory writer gives the five behaviours were not '
+                     'recognised (%s), so the rank order %s cannot be compared with the order of the file names' % (ws, sorted(ranks, key=lambda v: ranks[v])))
     else:
         rep.analysed(ifn or cmpf)
         at = ifn or cmpf
